@@ -318,6 +318,8 @@ def scriptSpec (ops : Array Op) (res : Array Seen) (late : List (Nat × Seen)) (
     let mut lstConn : List (Nat × Nat) := []      -- listener index ↦ conn handle (from accept results)
     let mut openedAt : List (Nat × Nat) := []     -- handle ↦ op index of its creation
     let mut errKinds : List String := []
+    let mut knownClosed : List Nat := []      -- handles seen closed (own Read error / own Close)
+    let mut muxCloseReturned := false
     let mut nl := 0
     for i in [0:ops.size] do
       let op := ops[i]!
@@ -328,12 +330,14 @@ def scriptSpec (ops : Array Op) (res : Array Seen) (late : List (Nat × Seen)) (
         if !(openedAt.any (·.1 == h)) then openedAt := openedAt ++ [(h, i)]
       | .listen, .lst _ => nl := nl + 1
       | .accept, .conn h => lstConn := lstConn ++ [(op.h, h)]
-      | .closeconn, .ok _ => connClosed := op.h :: connClosed
+      | .closeconn, .ok _ => connClosed := op.h :: connClosed; knownClosed := op.h :: knownClosed
       | .lclose, .ok _ =>
         match lstConn.find? (·.1 == op.h) with
         | some (_, h) => connClosed := h :: connClosed
         | none => connClosed := connClosed   -- conn never handed out: its handle is unknown to the observer
-      | .closemux, .ok _ => if closedAt.isNone then closedAt := some i
+      | .closemux, .ok _ =>
+        muxCloseReturned := true
+        if closedAt.isNone then closedAt := some i
       | _, _ => pure ()
       -- hangs
       let isBlocked := final i == .blocked
@@ -372,7 +376,11 @@ def scriptSpec (ops : Array Op) (res : Array Seen) (late : List (Nat × Seen)) (
       | some c =>
         if i > c then
           match op.kind, r with
-          | .write, .ok _ => out := fail out s!"op {i}: Write succeeded after the mux closed (op {c})" "C11:write-ok-after-close"
+          | .write, .ok _ =>
+            -- (per handle: `mux.Close` closes the connections one after the other, so an error
+            -- seen on one handle does not date the close of another; a returned Close does)
+            if knownClosed.contains op.h || muxCloseReturned then
+              out := fail out s!"op {i}: Write succeeded after the connection was closed (op {c})" "C11:write-ok-after-close"
           | .read, .data _ _ => out := { out with tags := "select:data-after-close" :: out.tags }
           | _, _ => pure ()
       | none => pure ()
@@ -383,6 +391,7 @@ def scriptSpec (ops : Array Op) (res : Array Seen) (late : List (Nat × Seen)) (
           errKinds := errKinds ++ [k]
           -- (only an error returned at once dates the close; a call that blocked first, or a
           -- background Read, got its error at an unknown later time)
+          if op.kind == .read && r != .blocked then knownClosed := op.h :: knownClosed
           if op.kind == .read && r != .blocked && closedAt.isNone && !(connClosed.contains op.h) then closedAt := some i
           if op.kind == .readbg then out := { out with tags := "bgread:woken-by-error" :: out.tags }
       | .readbg, .data _ _ => out := { out with tags := "bgread:woken-by-data" :: out.tags }
